@@ -388,3 +388,18 @@ Proof.
   rewrite ext_of_length. unfold tevents. rewrite app_length, map_length. cbn. lia.
 Qed.
 End LastWithTime.
+
+(* the code before proposed_fixes/C17-take-last-with-time-boundary.diff (`<=` at
+   completion, `>=` when trimming): the element aged exactly the duration at
+   completion is emitted when it is alone and dropped when an unrelated element
+   arrives at the completion instant *)
+Theorem take_last_with_time_orig_boundary_refuted :
+  In (10, Next 1) (timed_emits 0 (simulate (x_take_last_with_time_orig 10) 0
+                                   (ext_of (tevents [(0, 1)] (TTDone 10)))))
+  /\ ~ In (10, Next 1) (timed_emits 0 (simulate (x_take_last_with_time_orig 10) 0
+                                        (ext_of (tevents [(0, 1); (10, 2)] (TTDone 10))))).
+Proof.
+  split.
+  - vm_compute. left. reflexivity.
+  - vm_compute. intros [H|[H|[]]]; discriminate.
+Qed.
